@@ -19,4 +19,5 @@ Definition dispatch (prop : string) (c : sexp) : sexp :=
   else if String.eqb prop "C01" then G14.run_verify c
   else if String.eqb prop "C06" then G14.run_sign_steps c
   else if String.eqb prop "C04" then G04.run c
+  else if String.eqb prop "C09" then G03.run_reparse c
   else A "unknown-property".
